@@ -51,6 +51,11 @@ def check(ctx):
              "loop that rewrites the cells' colspans (columns never split by any row are collapsed into one; without that a "
              "short spanning cell's estimate is divided down to zero and the cell is skipped)")
     ctx.guard("C06-G", rule_g)
+    ctx.rule("C06-H", "a spanning cell's estimate is spread over its columns as size / colspan and min_width / colspan, the same way "
+             "in the table's own estimate and in the column allocation: the dividend of every division by a colspan is the "
+             "estimate's field itself (a smaller dividend lets the per-column minimum reach 0 for ordinary words, and the "
+             "columns under the span are then allocated nothing)")
+    ctx.guard("C06-H", rule_h)
     ctx.guard("C06-C", widths.rule_estimate_merge, "C06-C")
 
 
@@ -390,6 +395,32 @@ def rule_e(ctx):
     uo = [(bb, t) for bb, t in td.calls(lambda cd, t: callee_method(t) == "unwrap_or")]
     okc = len(uo) == 1 and (op_const(uo[0][1]["args"][1]) or {}).get("int") == 1
     ctx.check(okc, "C06-E", "td:colspan-parse-or-1", td.span, td.id, "")
+
+
+def rule_h(ctx):
+    F = ctx.facts
+    for fn in ("RenderTable::calc_size_estimate", "render_table_tree"):
+        b = F.one(fn)
+        n = 0
+        seen = set()
+        for x in sorted(b.reachable()):
+            for st in b.stmts(x):
+                rv = st.get("rv") or {}
+                if rv.get("bin") != "Div" or not norm(b.canon(rv["b"])).endswith("colspan"):
+                    continue
+                n += 1
+                o = origin(b, rv["a"])
+                fld = None
+                if o and o[0] == "place":
+                    fs = place_fields(o[1])
+                    if fs and ends(fs[-1][0], "SizeEstimate") and fs[-1][1] in ("size", "min_width"):
+                        fld = fs[-1][1]
+                seen.add(fld)
+                ctx.check(fld is not None, "C06-H", "%s:%s/colspan" % (fn, fld or "?#%d" % n), st["span"], b.id,
+                          "a division by the cell's colspan whose dividend is not the estimate's size or min_width itself: %s"
+                          % norm(b.canon(rv["a"]))[:120])
+        ctx.floor("C06-H", "divisions by colspan in %s" % fn, n, 2)
+        ctx.check({"size", "min_width"} <= seen, "C06-H", "%s:both-components-spread" % fn, b.span, b.id, str(sorted(map(str, seen))))
 
 
 def rule_g(ctx):
